@@ -67,12 +67,17 @@ PcoHelperComplaints(e) ==
    LET want == <<128>> \o PcoMarshal(<<13, 3, 10, 13, 3, 16>>, << <<>>, <<>>, <<>>, e.ip4, e.ip6, <<e.mtu \div 256, e.mtu % 256>> >>, 1) IN
    IF e.panic \/ e.err THEN {"a PCO helper constructor failed"}
    ELSE IF e.bytes = want THEN {} ELSE {"the option list built by the helper constructors is " \o ToString(e.bytes) \o ", TS 24.008 10.5.6.3 gives " \o ToString(want)}
+PcoDnsComplaints(e) ==
+   LET want == <<128>> \o PcoMarshal(<<13, 13, 3, 3>>, << e.ip4, e.ip4b, e.ip6, e.ip6b >>, 1) IN
+   IF e.panic \/ e.err THEN {"a PCO helper constructor failed"}
+   ELSE IF e.bytes = want THEN {} ELSE {"primary and secondary DNS servers: the option list is " \o ToString(e.bytes) \o ", TS 24.008 10.5.6.3 gives " \o ToString(want)}
 DnnComplaints(e) ==
    IF e.panic THEN {"panic"}
    ELSE (IF e.bytes = <<Len(e.in)>> \o e.in THEN {} ELSE {"DNN is not length | value"}) \cup (IF e.back = e.in THEN {} ELSE {"DNN round trip differs"})
 
 Complaints(e) == CASE e.ev = "PlmnRow" -> RowComplaints(e)
                    [] e.ev = "PcoHelpers" -> PcoHelperComplaints(e)
+                   [] e.ev = "PcoDns" -> PcoDnsComplaints(e)
                    [] e.ev = "WirePlmn" -> WireComplaints(e)
                    [] e.ev = "Snssai" -> SnssaiComplaints(e)
                    [] e.ev = "AmfIdRow" -> AmfIdComplaints(e)
